@@ -99,6 +99,20 @@ def render_tight(rng, toks):
     return "".join(out)
 
 
+def render_closers_tight(rng, toks):
+    """for regions consumed by the balanced-token matcher: only CLOSING brackets are written without layout between them
+    (`a[b[0]]`, `f(g(x))`): the lexer fuses `]` `]` into one `]]` token, which the matcher has to take apart again; opening
+    brackets are never glued (`[` `[` would be an attribute opener, a different token sequence)"""
+    out = []
+    prev = None
+    for t in toks:
+        if prev is not None and not (prev in ")]}>" and t in ")]}>" and rng.random() < 0.9):
+            out.append(rng.choice([" ", " ", "\n", " /* c */ "]))
+        out.append(t)
+        prev = t
+    return "".join(out)
+
+
 def angle_issue(toks):
     """a `>` or `>>` that closes no open `<` at its nesting level (the balanced-token matcher rejects it)"""
     stack = [0]
@@ -145,7 +159,12 @@ def run(ctx):
         toks = flat
         if kind == "bal" and tmpl.startswith("[[%s") and "]]" in toks:
             pass
-        content = render_tight(rng, toks) if kind != "bal" and rng.random() < 0.4 else render(rng, toks)
+        if kind != "bal" and rng.random() < 0.4:
+            content = render_tight(rng, toks)
+        elif kind == "bal" and rng.random() < 0.35:
+            content = render_closers_tight(rng, toks)
+        else:
+            content = render(rng, toks)
         text = tmpl % (" " + content + " ")
         nontrivial = len(toks) >= 4 and any(t in ("(", "[", "{", "[[") for t in toks)
         ctx.count(text, nontrivial=nontrivial)
